@@ -93,6 +93,56 @@ def rule_SF(ctx, fm):
     ctx.check('C10.SF.dispatch', 'get_source_field: coordinate input', ok,
               'coordinate tuples are not turned into wire / electric / '
               'magnetic dipole sources', ctx.where(fm, fn))
+    # which class a raw coordinate input becomes, evaluated over the input
+    # formats: 5 numbers (point format), 6 numbers / [[e1], [e2]] (two
+    # electrodes) are dipoles -- electric or, with electric=False, magnetic;
+    # three or more electrodes are a wire.  (A test on the number of
+    # dimensions instead of the number of electrodes turns a magnetic dipole
+    # given by two electrodes into a piece of wire.)
+    from ..core.tables import FiniteEval
+    ctors = {}
+    for cls_ in ('TxElectricWire', 'TxElectricDipole', 'TxMagneticDipole'):
+        for n_, _b in find(f'{s} = electrodes.{cls_}({s}, **_i_)', fn):
+            ctors.setdefault(cls_, []).append(n_)
+    shapes = {'5 numbers': (5,), '6 numbers': (6,), 'two electrodes': (2, 3),
+              'three electrodes': (3, 3), 'four electrodes': (4, 3)}
+    for label, shp in shapes.items():
+        size = 1
+        for d_ in shp:
+            size *= d_
+        for el in (None, True, False):
+            kw = {} if el is None else {'electric': el}
+            env = {f'{s}.size': size, f'{s}.ndim': len(shp),
+                   f'{s}.shape': list(shp), f'len({s})': shp[0],
+                   'kwargs': kw}
+            chosen = []
+            for cls_, nodes in ctors.items():
+                for n_ in nodes:
+                    live = True
+                    for t_, pol in au.guards_of(n_, fn):
+                        if 'isinstance' in ast.unparse(t_):
+                            continue
+                        try:
+                            if bool(FiniteEval(env, where=FIELDS).ev(t_)) \
+                                    != pol:
+                                live = False
+                        except AnalysisError:
+                            live = None
+                            break
+                    if live is None:
+                        chosen.append('?')
+                    elif live:
+                        chosen.append(cls_)
+            want = 'TxElectricWire' if shp[0] > 2 and len(shp) == 2 else (
+                'TxMagneticDipole' if el is False else 'TxElectricDipole')
+            ctx.check('C10.SF.dispatch', f'get_source_field: {label}, '
+                      f'electric={el}', chosen == [want],
+                      f'coordinate input of {label} with electric={el} '
+                      f'becomes {chosen}, expected {want}: the source that '
+                      'is discretised is not the one that was asked for',
+                      ctx.where(fm, fn), sample={'input': label,
+                                                 'electric': el,
+                                                 'class': chosen})
     # the documented keywords strength / length reach every source type they
     # apply to: `length` belongs to the point format (5 entries) of electric
     # AND magnetic dipoles, so its hand-over may not depend on `electric`
